@@ -500,8 +500,23 @@ func parentMain(h *Harness) int {
 		m.Distinct[k] = len(s)
 	}
 	if engineErr != "" {
-		fmt.Printf("ENGINE-ERROR property=%s\n%s\n", h.Prop, engineErr)
-		return 2
+		// A worker that was killed or died with a fatal runtime error was taken
+		// down by the code it was executing (a huge allocation, a stack overflow,
+		// a concurrent map write): that is a crash of the code under test, not a
+		// failure of the machinery.  Violations of the other workers are kept.
+		crash := strings.Contains(engineErr, "signal: killed") || strings.Contains(engineErr, "fatal error:") || strings.Contains(engineErr, "signal: segmentation")
+		switch {
+		case len(viols) > 0:
+			fmt.Printf("NOTE property=%s a worker did not finish (its part of the exploration is missing): %s\n", h.Prop, firstLine(engineErr))
+			m.Exhaustive = false
+		case crash:
+			c, _ := json.Marshal(map[string]string{"note": "a worker process of the check died while executing the code under test; re-run the check to reproduce", "worker": firstLine(engineErr)})
+			viols = append(viols, Violation{Key: "crash:worker-process-died", Desc: "a worker process died while executing the code under test:\n" + engineErr, Case: c})
+			m.Exhaustive = false
+		default:
+			fmt.Printf("ENGINE-ERROR property=%s\n%s\n", h.Prop, engineErr)
+			return 2
+		}
 	}
 	sort.Slice(viols, func(i, j int) bool { return viols[i].Key < viols[j].Key })
 	known := loadKnown(*flagKnown, h.Prop)
@@ -579,4 +594,11 @@ func parentMain(h *Harness) int {
 		return 1
 	}
 	return 0
+}
+
+func firstLine(s string) string {
+	if i := strings.IndexByte(s, '\n'); i >= 0 {
+		return s[:i]
+	}
+	return s
 }
